@@ -20,7 +20,6 @@ import (
 	gatewayv1 "sigs.k8s.io/gateway-api/apis/v1"
 	"sigs.k8s.io/gateway-api/apis/v1alpha2"
 
-	"github.com/nginx/nginx-gateway-fabric/internal/framework/controller/predicate"
 	"github.com/nginx/nginx-gateway-fabric/internal/framework/events"
 	"github.com/nginx/nginx-gateway-fabric/internal/framework/helpers"
 	vu "github.com/nginx/nginx-gateway-fabric/internal/verifutil"
@@ -31,24 +30,9 @@ import (
 // controller's last applied configuration and the statuses on the objects must be those a freshly started
 // controller derives from the final cluster state.
 
-// c01Filter mirrors the event filters registered in manager.go registerControllers (compared with the source by the
-// gen/Watches.v translator): may a create / update / delete of this kind reach the event handler?
-func c01Filter(kind string) k8spredicate.Predicate {
-	switch kind {
-	case "GatewayClass":
-		return k8spredicate.And(k8spredicate.GenerationChangedPredicate{}, predicate.GatewayClassPredicate{ControllerName: vpCtlrName})
-	case "Service":
-		return predicate.ServicePortsChangedPredicate{}
-	case "Secret":
-		return k8spredicate.ResourceVersionChangedPredicate{}
-	case "Namespace":
-		return k8spredicate.LabelChangedPredicate{}
-	case "ConfigMap":
-		return k8spredicate.Funcs{}
-	default:
-		return k8spredicate.GenerationChangedPredicate{}
-	}
-}
+// c01Filter: the event filter registered for the kind, rebuilt from the source of registerControllers on every run
+// (zz_verif_watch_test.go).
+func c01Filter(kind string) k8spredicate.Predicate { return vwFilter(kind) }
 
 func c01Kind(o client.Object) string {
 	k := fmt.Sprintf("%T", o)
@@ -325,7 +309,13 @@ func c01Histories(out *vu.Out, rng *vu.Rng, n int, focusGrants bool) {
 			} else {
 				gens[k]++
 			}
-			cp.SetGeneration(gens[k])
+			switch c01Kind(o) {
+			case "Service", "Secret", "ConfigMap", "Namespace":
+				// the API server does not maintain metadata.generation for these kinds
+				cp.SetGeneration(0)
+			default:
+				cp.SetGeneration(gens[k])
+			}
 			tmpw := &vpWorld{k8s: cw.k8s}
 			return prev, tmpw.Apply(cp).(*events.UpsertEvent).Resource
 		}
